@@ -38,6 +38,8 @@ fixed("F32", "C05", "6ca1bc7", "C05.branch-accounting|reset|eval_union_match|nex
 fixed("F33", "C05", "4f28af6", "C05.branch-accounting|isolated|compile_decision_tree|Switch", "stateful calls in several cases of a tuple `match`: cumulative pushes; VM panicked with cursor underflow, WASM returned 131 instead of 101 (findings/repro/F33_*.mmm)")
 for _p in ("C05", "C01"):
     fixed("F34", _p, "7fb4d49", "C05.site-table|cursor-never-advances|delay_sizes", "after acf6026 the VM selected delay_sizes by the run-time ordinal of the delay: `if (c > 3.0) delay(100.0, c, 2.0) else delay(4.0, c, 2.0)` ran the else delay with ring length 100 on its 6-word cell (garbage samples on the VM, zeros on WASM); the size is now looked up by code position (findings/repro/F34_*.mmm)")
+for _p in ("C03", "C04"):
+    fixed("F35", _p, "8d26740", "C03.guarded-index|guard|compiler::typing::InferContext::infer_type::{closure#3}|i-le-len", "`(1.0, 2.0).2`: the type checker's range test for tuple projection was `len < idx`, so idx == len indexed the element list and panicked (index out of bounds) on both back ends instead of reporting IndexOutOfRange (findings/repro/F35_*.mmm)")
 fixed("F21", "C01", "52a554f", "C01.ops|truthiness|JmpIfNeg|F64Const+F64Gt", "`if` on a NaN condition took the then-branch on the VM (cond <= 0.0 test) and the else-branch on WASM (cond > 0.0)")
 
 # ---- C01 operator templates ---------------------------------------------------------------------------
